@@ -577,6 +577,15 @@ func runC13(w *W) {
 			w.Case(fmt.Sprintf("cancel-race gate=%s.%s#%d unit=%s", g.Role, g.Point, g.Hit, unit), func() CaseOut { return runC13CancelRace(g, unit) })
 		}
 	}
+	// a release racing with look-ups of the same unit
+	for _, cmds := range [][]string{{"release U1", "status U1"}, {"release U1", "list"}, {"force-release U1", "status U1"}, {"release U1", "list U1"}, {"release U1", "cancel U1"}, {"release U1", "release U1"}, {"release U1", "status U1", "list"}} {
+		cmds := cmds
+		b := 2
+		if len(cmds) > 2 {
+			b = 1
+		}
+		w.explorerCase(fmt.Sprintf("release race %v p=%d", cmds, b), b, func(r *xrun) []Violation { return runC13ReleaseConc(cmds, r) })
+	}
 	for _, n := range []int{2, 3} {
 		n := n
 		b := 2
@@ -594,7 +603,7 @@ func init() {
 		ID:        "C13",
 		Level:     "model_checking",
 		Technique: "exhaustive enumeration of operation sequences on the real daemon with a status-rewrite observer in daemon and runner processes; cross-process orderings of cancel against runner completion enforced by gates at hook points; concurrent AllocateUnit with forced identical random IDs under the cooperative scheduler (context-bounded DFS)",
-		Rule: "sequences: every sequence of <=2 (quick) / <=3 (thorough) commands from {status, list, cancel, release, force-release, results} (each followed by status+list) on a finished-successful, a finished-failed, a running command unit and a pending remote unit, one real daemon per sequence; cancel races: the runner held at {started, final record written} while cancel runs, and cancel held at {before signal, before its status write} while the runner finishes, for three work types; allocation: 2 and 3 concurrent AllocateUnit calls whose first random draw is identical, all schedules with <=2 (3 threads quick: 1) preemptions. " +
+		Rule: "sequences: every sequence of <=2 (quick) / <=3 (thorough) commands from {status, list, cancel, release, force-release, results} (each followed by status+list) on a finished-successful, a finished-failed, a running command unit and a pending remote unit, one real daemon per sequence; cancel races: the runner held at {started, final record written} while cancel runs, and cancel held at {before signal, before its status write} while the runner finishes, for three work types; release races: release / force-release of a unit against status, list, cancel and a second release of the same unit as threads of the cooperative scheduler (<=2 preemptions; hook points before and after the directory is removed); allocation: 2 and 3 concurrent AllocateUnit calls whose first random draw is identical, all schedules with <=2 (3 threads quick: 1) preemptions. " +
 			"Oracle: every observed status rewrite moves forward (stage order, Succeeded final with constant size, output size not shrinking while running); reported states likewise; release => unknown + directory gone; cancel => command process gone; IDs pairwise distinct. Each case is distinct and non-trivial.",
 		Assumptions: []string{"real-time runs: no oracle depends on an interval shorter than the generous time-outs; a gate that is not reached is counted, not judged", "threads blocked on locks without hook points (activeUnitsLock) are recognised by a 60 ms quiet period"},
 		Run:         runC13,
